@@ -1,2 +1,149 @@
-(* C04 - placeholder while the proofs are being written *)
-From Slim Require Import Base Keys Model Scan.
+(* C04 - Scans yield exactly the retained entries in range, in order, once;
+   refusal on tries that do not store complete keys.
+   Closing theorems only; the proofs are in theories/Scan*Proofs.v
+   (ScanBasicProofs: refusal, exhaustion, callbacks; ScanIdProofs: breadth-first
+   ids; ScanIterProofs: the iterator state machine = the in-order listing;
+   ScanPathProofs: newIter; ScanItemsProofs: the listing = the kept entries with
+   keys rebuilt exactly; ScanGeProofs: getGEPath; ScanProofs: the assembly),
+   on top of the trie invariants of TrieInv/BuildProofs/ConsistProofs/OrderProofs.
+
+   Model level: L2, the tree model with breadth-first ids (theories/Model.v) and
+   the scan model theories/Scan.v, which follows trie/slimtrie_scan.go function
+   by function (getGEPath with its rID/rightPathLen fallback, newIter, the two
+   closures, next, scanStackElt.*, ScanFrom, ScanFromTo) with positions and the key
+   buffer in nibbles.  The correspondence check runs this model and the
+   implementation on the same generated tries and scan operations (fresh and
+   reloaded) and compares every yielded key and value byte for byte; a Go panic
+   is the observable PANIC.  [build .. = Ok T] is the success of NewSlimTrie
+   (C08); values are their encoded bytes (C15); a loaded trie answers like the
+   trie it was marshalled from (C05).
+
+   iter_init = NewIter (the state of the returned closure), iter_next = one call
+   of the closure (None = (nil, nil)), iter_run n = n consecutive calls,
+   scan_from / scan_from_to = the list of pairs the user's callback is invoked
+   on, a callback being any function of (number of earlier invocations, pair). *)
+From Slim Require Import Base Keys KeysProofs Model QueryProofs Scan ScanBasicProofs ScanProofs.
+From Coq Require Import Sorting.Sorted.
+
+(* (d) Complete tries: every option spelling whose normal form stores inner and
+   leaf prefixes; any keys; values None (nil), or any byte strings (fixed or
+   variable width, possibly empty); any start string, both inclusivities, with
+   and without values.  [scan_indexes] = the indexes i (ascending) of the
+   retained keys with keys[i] >= s (> s when exclusive); [elem_ok i x]: x's key is
+   keys[i] and its value is the bytes supplied for i (None when not requested,
+   and when no values were supplied).  The closure yields exactly these, then nil
+   on every later call; ScanFrom hands the callback that sequence up to and
+   including the first pair it answers false on; ScanFromTo the same, testing the
+   end bound before the callback. *)
+Theorem C04_iter :
+  forall (ropt : raw_opt) (keys : list key) (vals : option (list (list byte))) (T : trie),
+    build (normalize ropt) keys vals = Ok T ->
+    complete_opts (normalize ropt) = true ->
+    forall (s : key) (incl withv : bool), exists it outs,
+      iter_init T s incl withv = Ok it /\
+      Forall2 (elem_ok keys vals withv) (scan_indexes (normalize ropt) keys vals s incl) outs /\
+      (forall n, iter_run n T it = Ok (firstn n (map Some outs ++ repeat None n))) /\
+      (forall fn, scan_from T s incl withv fn = Ok (cut fn 0 outs)) /\
+      (forall e incle fn, scan_from_to T s incl e incle withv fn = Ok (cut_to e incle fn 0 outs)).
+Proof. intros ropt keys vals T. exact (scan_complete (normalize ropt) keys vals T). Qed.
+Print Assumptions C04_iter.
+
+(* "in strictly ascending byte order, each once": the yielded keys are strictly
+   ascending (bytewise order on the nibble view = Go's string order, KeysProofs.bytes_cmp_nibs) *)
+Theorem C04_ascending :
+  forall (ropt : raw_opt) keys vals T s incl,
+    build (normalize ropt) keys vals = Ok T ->
+    StronglySorted key_lt (map (fun i => nth i keys []) (scan_indexes (normalize ropt) keys vals s incl)).
+Proof. intros ropt keys vals T s incl. exact (scan_keys_ascending (normalize ropt) keys vals T s incl). Qed.
+Print Assumptions C04_ascending.
+
+(* (a) refusal: every option spelling whose normal form lacks inner or leaf
+   prefixes, with and without values, every non-empty key list, every start:
+   NewIter / ScanFrom / ScanFromTo panic (site 20 = the explicit panic of getGEPath) *)
+Theorem C04_refuse :
+  forall (ropt : raw_opt) keys vals T,
+    build (normalize ropt) keys vals = Ok T -> keys <> [] ->
+    complete_opts (normalize ropt) = false ->
+    forall s incl withv,
+      iter_init T s incl withv = Err (EPanic 20) /\
+      (forall fn, scan_from T s incl withv fn = Err (EPanic 20)) /\
+      (forall e incle fn, scan_from_to T s incl e incle withv fn = Err (EPanic 20)).
+Proof. intros ropt keys vals T. exact (scan_refuses (normalize ropt) keys vals T). Qed.
+Print Assumptions C04_refuse.
+
+(* the empty trie yields nothing and does not panic, under every option spelling *)
+Theorem C04_empty :
+  forall (ropt : raw_opt) vals T,
+    build (normalize ropt) [] vals = Ok T ->
+    forall s incl withv,
+      iter_init T s incl withv = Ok (empty_iter withv) /\
+      iter_next T (empty_iter withv) = Ok (None, empty_iter withv) /\
+      (forall fn, scan_from T s incl withv fn = Ok []) /\
+      (forall e incle fn, scan_from_to T s incl e incle withv fn = Ok []).
+Proof. intros ropt vals T. exact (scan_empty (normalize ropt) vals T). Qed.
+Print Assumptions C04_empty.
+
+(* (b) exhaustion is absorbing, for every trie and every iterator state *)
+Theorem C04_exhaustion_absorbing :
+  forall T it it', iter_next T it = Ok (None, it') -> it' = it /\ iter_next T it' = Ok (None, it').
+Proof. exact exhaustion_absorbing. Qed.
+Print Assumptions C04_exhaustion_absorbing.
+
+(* (c) callbacks, for every trie (complete or not) on which the iterator runs:
+   ScanFrom / ScanFromTo deliver [cut] / [cut_to] of the iterator's sequence *)
+Theorem C04_callbacks :
+  forall T s incl withv it xs it',
+    iter_init T s incl withv = Ok it ->
+    iter_drain (scan_fuel T) T it = Ok (xs, it') ->
+    (forall fn, scan_from T s incl withv fn = Ok (cut fn 0 xs)) /\
+    (forall e incle fn, scan_from_to T s incl e incle withv fn = Ok (cut_to e incle fn 0 xs)).
+Proof. exact scan_callback_semantics. Qed.
+Print Assumptions C04_callbacks.
+
+(* what [cut] and [cut_to] mean: a prefix; every delivered pair but the last was
+   answered true (the callback is never invoked after answering false); a proper
+   prefix ends with a false answer; nothing beyond the end bound is delivered, and
+   without a false answer everything up to the bound is *)
+Theorem C04_cut_meaning :
+  (forall fn xs, exists n, cut fn 0 xs = firstn n xs) /\
+  (forall fn xs pre x post, cut fn 0 xs = pre ++ x :: post -> post <> [] -> fn (length pre) x = true) /\
+  (forall fn xs, cut fn 0 xs = xs \/ exists pre x, cut fn 0 xs = pre ++ [x] /\ fn (length pre) x = false) /\
+  (forall e incle fn xs, exists n, cut_to e incle fn 0 xs = firstn n xs) /\
+  (forall e incle fn xs, Forall (fun x => beyond e incle (fst x) = false) (cut_to e incle fn 0 xs)) /\
+  (forall e incle fn xs, (forall i x, fn i x = true) ->
+     cut_to e incle fn 0 xs = take_while (fun x => negb (beyond e incle (fst x))) xs).
+Proof.
+  split; [intros; apply cut_prefix|].
+  split; [intros fn xs pre x post H Hne; exact (cut_stops fn xs 0 pre x post H Hne)|].
+  split; [intros fn xs; exact (cut_complete fn xs 0)|].
+  split; [intros; apply cut_to_prefix|].
+  split; [intros; apply cut_to_within|].
+  intros; apply cut_to_all; assumption.
+Qed.
+Print Assumptions C04_cut_meaning.
+
+(* ---------- non-vacuity ---------- *)
+(* keys "", "a", "ab", "b\255", "b\255\000" with variable-width values (two equal
+   neighbours: "ab" is dropped by the default de-duplication); Complete *)
+Definition ex_keys : list key :=
+  [ []; ["097"%byte]; ["097"%byte; "098"%byte]; ["098"%byte; "255"%byte]; ["098"%byte; "255"%byte; "000"%byte] ].
+Definition ex_vals : option (list (list byte)) :=
+  Some [ ["001"%byte]; ["002"%byte; "003"%byte]; ["002"%byte; "003"%byte]; []; ["004"%byte; "005"%byte; "006"%byte] ].
+Definition ex_complete : raw_opt := {| r_dedup := None; r_inner := None; r_leaf := None; r_complete := Some true |}.
+Definition ex_leafonly : raw_opt := {| r_dedup := None; r_inner := None; r_leaf := Some true; r_complete := None |}.
+
+Example C04_hypotheses_satisfiable :
+  exists T, build (normalize ex_complete) ex_keys ex_vals = Ok T /\
+            complete_opts (normalize ex_complete) = true /\
+            scan_indexes (normalize ex_complete) ex_keys ex_vals ["097"%byte] false = [3; 4] /\
+            scan_from T ["097"%byte] false true never_stop =
+              Ok [ (["098"%byte; "255"%byte], Some []);
+                   (["098"%byte; "255"%byte; "000"%byte], Some ["004"%byte; "005"%byte; "006"%byte]) ] /\
+            scan_from T [] true false (stop_at 1) = Ok [ ([], None); (["097"%byte], None) ].
+Proof. vm_compute. eexists. repeat split. Qed.
+
+Example C04_refusal_satisfiable :
+  exists T, build (normalize ex_leafonly) ex_keys ex_vals = Ok T /\
+            complete_opts (normalize ex_leafonly) = false /\
+            iter_init T [] true true = Err (EPanic 20).
+Proof. vm_compute. eexists. repeat split. Qed.
